@@ -984,6 +984,10 @@ func (p *Parser) parseSimpleStmt(forIn bool) Stmt {
 					p.errorExpected(x[1].Pos(), "identifier")
 					value = &Ident{Name: "_", NamePos: x[1].Pos()}
 				}
+			default:
+				p.errorExpected(x[0].Pos(), "1 or 2 identifiers")
+				key = &Ident{Name: "_", NamePos: x[0].Pos()}
+				value = &Ident{Name: "_", NamePos: x[0].Pos()}
 			}
 			return &ForInStmt{
 				Key:      key,
